@@ -656,3 +656,24 @@ PROPS['C18'] = dict(
     level_note='Trusted: Coq kernel; harness+driver; rand primitives as oracles.',
     technique='Coq theorems over the distribution monad (collection length/membership, uniform-by-index) + exact and statistical correspondence over all conversion flavours',
     design_ref='DESIGN.md §6 C18')
+
+# ---------------------------------------------------------------------------
+# C09
+def c09_describe(inp, obs):
+    return '%s on population %s, child-maker call #%d fails (-1 / >= size: none); observed [result, population afterwards, log of [saw own population, saw old contents, word1, word2, failed?, child|error]]' % (
+        'serial_next' if inp[0] == 0 else 'par_next (%d rayon threads)' % inp[0], inp[1][:8], inp[2])
+PROPS['C09'] = dict(
+    corr='CorrC09', judge='(judge_cases judge)',
+    coq_targets=['theories/Props/C09.vo', 'theories/Corr/CorrC09.vo'],
+    describe=c09_describe, no_shrink=True,
+    nontrivial=lambda i, o: len(i[1]) >= 1,
+    classify=lambda i, o: 'serial' if i[0] == 0 else 'parallel',
+    bucket=lambda i, o: ['mode=%s' % ('serial' if i[0] == 0 else 'par/%d' % i[0]), 'size=%d' % len(i[1]), 'failure=%s' % ('injected' if 0 <= i[2] < len(i[1]) else 'none')],
+    rule='Generation::serial_next and par_next (rayon pools of 1, 2, 3, 4, 8, 16 threads, 6 / 100 repetitions each) over populations of size 0, 1, 2, 7, 64 with an instrumented child maker that records the address and contents of the population it is shown and two words drawn from the generator it is handed, and fails at a chosen call; failure injected at every call position (sampled for size 64), at a position beyond the last call, and not at all. Judged in coqc: exactly n invocations on success, every invocation saw the generation\'s own, unmodified population, all drawn words pairwise distinct, the new population is exactly the children (in call order for serial - computed by the model serial_next from the logged per-call behaviour - as a multiset for parallel), on failure the population equals the old one, the error is the failing child\'s, and serial stepping stops right there. Non-trivial: non-empty population.',
+    trusted=['thread interleavings are SAMPLED, not enumerated; that children cannot mutate the shared population is Rust\'s &P / Sync typing (trusted)',
+             'the randomness of Generation is rand::rng() (thread RNG): not seedable, so the judge is relational over the recorded words'],
+    assumptions=['distinctness of 64-bit words drawn by different children stands for "own live randomness" (collision probability negligible)'],
+    level_text='Theorems (Props/C09.v) for an ARBITRARY child-making operator: serial stepping yields as many children as the population had and installs exactly them; on failure the population is exactly the old one; every call is made on the old population and is handed the generator state the previous call left (consecutive disjoint stretches of the stream), and nothing is made after a failure; the parallel relation (independent generator per child, any schedule) gives the same length / atomicity guarantees. Tied to the code by an instrumented child maker under serial_next and par_next with failure at every position and several pool sizes.',
+    level_note='Trusted: Coq kernel; harness+driver; rayon scheduling and Rust aliasing guarantees (schedules sampled).',
+    technique='Coq theorems over the repeat combinator (atomic replace, call chain) + instrumented child-maker correspondence under serial and rayon-parallel stepping',
+    design_ref='DESIGN.md §6 C09')
